@@ -205,6 +205,11 @@ def gammas(run):
         for ocs in ((5,) if quick else (5, 16)):
             for nrow in ((5,) if quick else (4, 6, 10)):
                 out.append(({"strategy": strat, "L": 1, "nrow": nrow, "header": "explicit", "heights": [1, 2], "other_col_size": ocs}, 4 if quick else 5))
+    # group_by whose value text wraps: the value is printed on the first row of the group AND again on the first row of every
+    # continuation page (page context), where it needs its lines
+    for gl in ((2,) if quick else (2, 3)):
+        for nrow in ((5,) if quick else (4, 5, 7)):
+            out.append(({"strategy": "group_by", "L": 1, "nrow": nrow, "header": "explicit", "heights": [1, 2], "group_by_lines": gl}, 5))
     # page_by
     for L in (1, 2, 3):
         for nrow in ((4, 6) if quick else (3, 4, 5, 6, 8, 12)):
